@@ -718,8 +718,8 @@ spiftool_version_compare(spif_charptr_t v1, spif_charptr_t v2)
             spif_int8_t ival1 = 6, ival2 = 6;
 
             /* Compare words.  First, copy each word into buffers. */
-            for (; *v1 && isalpha(*v1); v1++, p1++) *p1 = *v1;
-            for (; *v2 && isalpha(*v2); v2++, p2++) *p2 = *v2;
+            for (; *v1 && isalpha(*v1); v1++) if (p1 < buff1 + sizeof(buff1) - 1) *p1++ = *v1;
+            for (; *v2 && isalpha(*v2); v2++) if (p2 < buff2 + sizeof(buff2) - 1) *p2++ = *v2;
             *p1 = *p2 = 0;
 
             /* Change the buffered strings to lowercase for easier comparison. */
@@ -769,8 +769,8 @@ spiftool_version_compare(spif_charptr_t v1, spif_charptr_t v2)
             spif_cmp_t c;
 
             /* Compare numbers.  First, copy each number into buffers. */
-            for (; *v1 && isdigit(*v1); v1++, p1++) *p1 = *v1;
-            for (; *v2 && isdigit(*v2); v2++, p2++) *p2 = *v2;
+            for (; *v1 && isdigit(*v1); v1++) if (p1 < buff1 + sizeof(buff1) - 1) *p1++ = *v1;
+            for (; *v2 && isdigit(*v2); v2++) if (p2 < buff2 + sizeof(buff2) - 1) *p2++ = *v2;
             *p1 = *p2 = 0;
 
             /* Convert the strings into actual integers. */
@@ -789,8 +789,8 @@ spiftool_version_compare(spif_charptr_t v1, spif_charptr_t v2)
             spif_cmp_t c;
 
             /* Compare non-alphanumeric strings. */
-            for (; *v1 && !isalnum(*v1); v1++, p1++) *p1 = *v1;
-            for (; *v2 && !isalnum(*v2); v2++, p2++) *p2 = *v2;
+            for (; *v1 && !isalnum(*v1); v1++) if (p1 < buff1 + sizeof(buff1) - 1) *p1++ = *v1;
+            for (; *v2 && !isalnum(*v2); v2++) if (p2 < buff2 + sizeof(buff2) - 1) *p2++ = *v2;
             *p1 = *p2 = 0;
 
             D_CONF(("     -> Comparing as non-alphanumeric strings \"%s\" vs. \"%s\"\n", buff1, buff2));
